@@ -742,6 +742,7 @@ func (l *lexer) scanString(ret rune) (rune, rune) {
 }
 
 func (l *lexer) scanEscape() rune {
+	errCount := len(l.errors)
 	ch := l.next() // read character after '\'
 	switch ch {
 	case 'b':
@@ -775,8 +776,9 @@ func (l *lexer) scanEscape() rune {
 		ch = l.next()
 	}
 
-	if ch == stopTok {
-		// Reset the string.
+	if ch == stopTok && len(l.errors) > errCount {
+		// Reset the string on error, but not when the escape sequence is
+		// simply the last thing in the input.
 		l.resetStrBuf()
 	}
 
